@@ -356,6 +356,9 @@ def directed_histories():
     for mid in ([['X', 2, False]], [['run', 3]], [['settle'], ['lag', 3], ['settle']], [['C', 2]], [['T', 2, 1], ['run', 1]], []):
         out.append([['S', 'net', 3], ['Rs', 2]] + [list(a) for a in mid] + [['Rf'], ['run', 50]])
         out.append([['S', 'net', 0], ['Rs', 2], ['Rs', 2]] + [list(a) for a in mid] + [['Rf'], ['R', 2], ['Rf'], ['run', 50]])
+    # many requests live at the same time (a bounded or evicting registry would lose the oldest ones)
+    many = [['S', ('net', 'room', 'user')[i % 3], 40 if i % 4 else 0] for i in range(300)] + [['W', 0, 3], ['W', 45, 3]]
+    out.append(many + [['R', 2], ['R', 3], ['R', 150], ['R', 301], ['R', 307], ['run', 41], ['R', 2], ['R', 6], ['R', 302], ['run', 10], ['R', 305], ['R', 2]])
     for store in (False, True):
         out.append([['cfg', store], ['S', 'net', 3], ['R', 2], ['Rs', 2], ['Rf'], ['R', 9], ['run', 5], ['R', 2]])
     for tau in (0, 5):
@@ -718,7 +721,8 @@ def run(run: Run):
                     'stub network (send_server_messages does not suspend; listeners are plain functions): the segments of the model are atomic']
     run.assumptions += ['a request is identified by its ticket: fewer than 2^32-2 tickets are drawn in a history (nowrap)',
                         'first step of a timer task happens at the instant of Timer.start() (no loop lag between start and first step)']
-    proved = run.prove(['tr_ticket', 'tr_search'])
+    proved = run.prove(['tr_ticket', 'tr_search', 'tr_pins_c18'])
+    deep = run.tier != 'quick' or not proved     # a broken tie (translator / fingerprint / proof) triggers the longer directed search
 
     found = set()
     # listed findings first (deterministic KNOWN-FINDING lines)
@@ -734,15 +738,15 @@ def run(run: Run):
         classify(run, ops, [x for x in v if x[0] == key] or v, found)
 
     cases = []
-    nrand = 350 if run.tier == 'quick' else 3000
+    nrand = 350 if not deep else 3000
     hist = directed_histories()
-    if run.tier == 'quick':
-        keep = [h for h in hist if any(op[0] in ('Rs', 'L', 'cfg') for op in h)]
-        rest = [h for h in hist if not any(op[0] in ('Rs', 'L', 'cfg') for op in h)]
+    if not deep:
+        keep = [h for h in hist if any(op[0] in ('Rs', 'L', 'cfg') for op in h) or len(h) > 100]
+        rest = [h for h in hist if not (any(op[0] in ('Rs', 'L', 'cfg') for op in h) or len(h) > 100)]
         run.rng.shuffle(rest)
         hist = keep + rest[:230]
     for i in range(nrand):
-        hist.append(gen_ops(run.rng, run.rng.randrange(3, 28 if run.tier == 'quick' else 45)))
+        hist.append(gen_ops(run.rng, run.rng.randrange(3, 28 if not deep else 45)))
     for ops in hist:
         try:
             obs = run_impl(ops)
@@ -772,7 +776,7 @@ def run(run: Run):
         texts.append(coq_cases(cases[i:i + shard], 1000))
     texts.append(ticket_checks(run))
     try:
-        outs = coq_eval_many('c18', texts)
+        outs = coq_eval_many('c18', texts, timeout=900)
         nbad = 0
         for k, out in enumerate(outs[:-1]):
             vals = parse_eval(out)
@@ -796,6 +800,16 @@ def run(run: Run):
 
     # the real periodic wishlist task with the server-provided interval (monitor only)
     periodic_wishlist(run, found)
+    try:
+        hb = helper_scenarios()
+    except Exception as e:
+        hb = [('crashed', f'{type(e).__name__}: {e}')]
+    run.case({'helper_scenarios': 3}, kind='helper-scenarios')
+    for name, what in hb:
+        key = 'helper-scenario:' + name
+        if key not in found:
+            found.add(key)
+            run.add_finding(Finding(key, what, {'helper_scenario': name}, observed=what))
     for kind, yields in (('net', 1), ('room', 2), ('user', 1), ('wish', 1), ('wish', 3)):
         try:
             bad = suspending_listeners(kind, 5, yields)
@@ -891,6 +905,111 @@ def suspending_listeners(kind, tau=5, yields=1):
         h.close()
 
 
+def helper_scenarios():
+    """Scenarios that exercise the helpers the model takes for granted (EventBus order / exception handling / weak
+    references, settings objects, optional message fields).  -> list of (name, problem)"""
+    from aioslsk.events import SearchResultEvent, SearchRequestRemovedEvent, SearchRequestSentEvent, MessageReceivedEvent
+    from aioslsk.protocol.messages import PeerSearchReply
+    from aioslsk.settings import SearchSendSettings
+    bad = []
+
+    def reply(h, tk, locked=()):
+        msg = PeerSearchReply.Request(username='peer', ticket=tk, results=[], has_slots_free=True, avg_speed=1, queue_size=0,
+                                      locked_results=None if locked is None else list(locked))
+        h.loop.run_coro(h.bus.emit(MessageReceivedEvent(msg, h.Conn())))
+
+    # 1. a raising listener must not keep later listeners (or the removal itself) from happening
+    h = Harness()
+    try:
+        got = []
+
+        def boom(event):
+            raise ValueError('listener bug')
+
+        async def aboom(event):
+            raise KeyError('listener bug')
+
+        def late(event):
+            got.append((type(event).__name__, event.query.ticket, h.t()))
+        h._keep = (boom, aboom, late)
+        for ev in (SearchResultEvent, SearchRequestRemovedEvent, SearchRequestSentEvent):
+            h.bus.register(ev, boom, priority=1)
+            h.bus.register(ev, aboom, priority=2)
+            h.bus.register(ev, late, priority=900)
+        h.settings.searches.send.request_timeout = 4
+        h.loop.run_coro(h.mgr.search('q'))
+        reply(h, 2)
+        h._track()
+        h.loop.run_for(30)
+        h.settle()
+        want = [('SearchRequestSentEvent', 2, 1000), ('SearchResultEvent', 2, 1000), ('SearchRequestRemovedEvent', 2, 1004)]
+        if got != want or h.mgr.requests or h.loop.unhandled or any(e[0] in ('errkey', 'other') for e in h.events):
+            bad.append(('raising-listener', f'with listeners that raise, a later listener saw {got} (expected {want}); requests={sorted(h.mgr.requests)}; '
+                                           f'errors={[e for e in h.events if e[0] in ("errkey", "other")]}'))
+    finally:
+        h.close()
+
+    # 2. re-entrant listeners: removing the request from inside the result event; searching again from inside the removal event
+    h = Harness()
+    try:
+        got = []
+
+        def remove_on_result(event):
+            got.append(('result', event.query.ticket))
+            h.mgr.remove_request(event.query)
+
+        async def search_on_removed(event):
+            got.append(('removed', event.query.ticket, h.t()))
+            if event.query.ticket == 3:
+                await h.mgr.search('again')
+        h._keep = (remove_on_result, search_on_removed)
+        h.bus.register(SearchResultEvent, remove_on_result)
+        h.bus.register(SearchRequestRemovedEvent, search_on_removed)
+        h.settings.searches.send.request_timeout = 4
+        h.loop.run_coro(h.mgr.search('q'))      # ticket 2: removed by the listener at the first result
+        h.loop.run_coro(h.mgr.search('r'))      # ticket 3: times out; the listener then starts ticket 4
+        reply(h, 2)
+        reply(h, 2)
+        h._track()
+        h.loop.run_for(5)
+        h.settle()
+        mid = sorted(h.mgr.requests)
+        h.loop.run_for(30)
+        h.settle()
+        want = [('result', 2), ('removed', 3, 1004), ('removed', 4, 1008)]
+        if got != want or mid != [4] or h.mgr.requests or h.loop.unhandled or any(e[0] in ('errkey', 'other') for e in h.events):
+            bad.append(('re-entrant-listener', f'listeners calling back into the manager saw {got} (expected {want}); requests after 5 s {mid} (expected [4]), '
+                                              f'at the end {sorted(h.mgr.requests)}; errors={[e for e in h.events if e[0] in ("errkey", "other")]}'))
+    finally:
+        h.close()
+
+    # 3. a listener registered after the request was made; a listener that is garbage collected; settings replaced as a whole;
+    #    reply without the optional locked_results
+    h = Harness()
+    try:
+        got = []
+        h.settings.searches.send = SearchSendSettings(request_timeout=7, store_results=False)
+        h.loop.run_coro(h.mgr.search('q'))
+
+        def late(event):
+            got.append(('result', event.query.ticket, event.result.locked_results, len(event.query.results)))
+        h._keep = (late,)
+        h.bus.register(SearchResultEvent, late)
+        h.bus.register(SearchResultEvent, lambda e: got.append('collected listener ran'))    # not referenced: dropped by the bus
+        import gc
+        gc.collect()
+        reply(h, 2, None)
+        h._track()
+        h.loop.run_for(30)
+        h.settle()
+        rem = [e for e in h.events if e[0] == 'removed']
+        if got != [('result', 2, [], 0)] or rem != [('removed', 2, 1007)] or h.loop.unhandled:
+            bad.append(('late-listener/settings-replaced/optional-field', f'got {got} (expected [("result", 2, [], 0)]); removals {rem} (expected at 1007)'))
+    finally:
+        h.close()
+    return bad
+
+
 def cancelled_creator(kind, tau=5):
     """search() whose caller is cancelled while a coroutine listener of SearchRequestSentEvent is suspended: the request is
     registered, so its timeout must still remove it (and report the removal) exactly once at the deadline.  -> list of problems"""
@@ -982,6 +1101,10 @@ def replay(rep) -> int:
         bad = vals[-1] == first or not (1 <= vals[-1] <= MAXT)
         print(f'ticket_generator(): first ticket {first}, ticket after {n} more issues: {vals[-1]}')
         return 1 if bad else 0
+    if 'helper_scenario' in wit:
+        hb = helper_scenarios()
+        print('helper scenarios:', hb)
+        return 1 if hb else 0
     if 'suspending_listeners' in wit:
         bad = suspending_listeners(wit['suspending_listeners'], 5, wit.get('yields', 1))
         print('suspending listeners:', bad)
